@@ -15,6 +15,7 @@ package main
 // the schema regenerated from /repo; Props/C05.v pins the annotations themselves).
 
 import (
+	"github.com/ovh/kmip-go/ttlv"
 	"bytes"
 	"encoding/json"
 	"fmt"
@@ -224,6 +225,34 @@ func driveC05(c *h.Ctx) error {
 				sig = "C05/gate/element-allowed-at-version-is-missing"
 			}
 			c.Fail(sig, fmt.Sprintf("at version %s the encoding (%d bytes) differs from the encoding of the message stripped to the elements the pinned table allows (%d bytes)", cas.Ver, len(b1), len(b2)), caseJSON)
+		}
+		// the same in the other encodings: the gate is the encoder's, not the binary writer's
+		for _, tf := range []struct {
+			name string
+			enc  func(any) []byte
+		}{{"xml", func(v any) []byte { return ttlv.MarshalXML(v) }}, {"json", func(v any) []byte { return ttlv.MarshalJSON(v) }}, {"text", func(v any) []byte { return []byte(ttlv.MarshalText(v)) }}} {
+			var t1, t2 []byte
+			pp := ""
+			func() {
+				defer func() {
+					if r := recover(); r != nil {
+						pp = fmt.Sprint(r)
+					}
+				}()
+				t1 = append([]byte{}, tf.enc(m)...)
+				t2 = append([]byte{}, tf.enc(ms)...)
+			}()
+			c.Count("text-encoding:" + tf.name)
+			if pp != "" {
+				continue // not representable in that encoding (C04's subject)
+			}
+			if !bytes.Equal(t1, t2) {
+				sig := "C05/gate/" + tf.name + "/element-not-allowed-at-version-is-emitted"
+				if len(t1) < len(t2) {
+					sig = "C05/gate/" + tf.name + "/element-allowed-at-version-is-missing"
+				}
+				c.Fail(sig, fmt.Sprintf("at version %s the %s encoding (%d bytes) differs from the %s encoding of the message stripped to the elements the pinned table allows (%d bytes)", cas.Ver, tf.name, len(t1), tf.name, len(t2)), caseJSON)
+			}
 		}
 		out := newMsgLike(m)
 		derr, dp := safeUnmarshal(b1, out)
